@@ -1,4 +1,4 @@
-import AsyncFix.Lemmas.TesterAscii
+import AsyncFix.Lemmas.TesterLatin
 
 /-!
 C20 helper lemmas: the closed forms restated as FUNCTIONS of the connection (`afterSend`, `afterIn`)
@@ -51,36 +51,36 @@ structure Est (c : Conn) : Prop where
   noreq : c.testReqId = none
   posIn : 0 < c.sess.nextIn
   fresh : JFresh c
-  asciiS : asciiStr c.sess.sender = true
-  asciiT : asciiStr c.sess.target = true
+  latinS : isLatin1 c.sess.sender = true
+  latinT : isLatin1 c.sess.target = true
 
 theorem est_afterSend {c : Conn} (env : Env) (m : Msg) (h : Est c) : Est (afterSend c env m) :=
-  ⟨h.st, h.was, h.sock, h.noreq, h.posIn, jfresh_afterSend env m h.fresh, h.asciiS, h.asciiT⟩
+  ⟨h.st, h.was, h.sock, h.noreq, h.posIn, jfresh_afterSend env m h.fresh, h.latinS, h.latinT⟩
 
 theorem est_afterIn {c : Conn} (env : Env) (f : Msg) (h : Est c) : Est (afterIn c env f) :=
   ⟨h.st, h.was, h.sock, h.noreq, by show 0 < c.sess.nextIn + 1; have := h.posIn; omega,
-   jfresh_afterIn env f h.fresh, h.asciiS, h.asciiT⟩
+   jfresh_afterIn env f h.fresh, h.latinS, h.latinT⟩
 
 /-- a message the application (or the session layer) sends in a clean script: not a SequenceReset, no
 PossDupFlag=Y, ASCII -/
 structure PlainMsg (m : Msg) : Prop where
   notReset : m.mtype ≠ mSequenceReset
   noPossDup : (m.get? tPossDupFlag).getD "N" ≠ "Y"
-  ascii : asciiMsg m = true
+  latin1 : latin1Msg m = true
 
-theorem sentFrame_ascii {c : Conn} {env : Env} {m : Msg} (hS : asciiStr c.sess.sender = true)
-    (hT : asciiStr c.sess.target = true) (henv : asciiStr env.stamp = true) (hm : asciiMsg m = true) :
-    isAscii (sentFrame c env m) = true := isAscii_buildFrame _ _ _ _ hS hT henv hm
+theorem sentFrame_latin1 {c : Conn} {env : Env} {m : Msg} (hS : isLatin1 c.sess.sender = true)
+    (hT : isLatin1 c.sess.target = true) (henv : isLatin1 env.stamp = true) (hm : latin1Msg m = true) :
+    frameLatin1 (sentFrame c env m) = true := frameLatin1_buildFrame _ _ _ _ hS hT henv hm
 
 /-- `send_msg` on an established connection (a TestRequest only with its id registered) -/
-theorem send_est {env : Env} {c : Conn} {m : Msg} (h : Est c) (hm : PlainMsg m) (henv : asciiStr env.stamp = true)
+theorem send_est {env : Env} {c : Conn} {m : Msg} (h : Est c) (hm : PlainMsg m) (henv : isLatin1 env.stamp = true)
     (htr : m.mtype ≠ mTestRequest) :
     sendMsg env m c = ⟨.ok (), afterSend c env m, [.write (sentFrame c env m)]⟩ :=
   sendMsg_closed (by rw [h.st]; decide) (by rw [h.st]; simp [st_ACTIVE, st_LOGON_INITIAL_SENT]) hm.notReset
     (fun e => absurd e htr) hm.noPossDup
-    (frameLatin1_of_isAscii (sentFrame_ascii h.asciiS h.asciiT henv hm.ascii)) (jOut_spec env m h.fresh) h.sock
+    ((sentFrame_latin1 h.latinS h.latinT henv hm.latin1)) (jOut_spec env m h.fresh) h.sock
 
-theorem appSend_est {env : Env} {c : Conn} {m : Msg} (h : Est c) (hm : PlainMsg m) (henv : asciiStr env.stamp = true)
+theorem appSend_est {env : Env} {c : Conn} {m : Msg} (h : Est c) (hm : PlainMsg m) (henv : isLatin1 env.stamp = true)
     (htr : m.mtype ≠ mTestRequest) :
     appSend env c m = (afterSend c env m, [.write (sentFrame c env m)]) := by
   simp [appSend, M.run, send_est h hm henv htr]
@@ -102,21 +102,21 @@ theorem recv_logout_est {sr : Msg → Bool} {env : Env} {c : Conn} {f : Msg} {v 
        [.onLogout f, .closeSocket, .onState st_DISCONNECTED_WCONN_TODAY, .onDisconnect]) :=
   recv_logout ha h.st h.was hty h.sock
 
-theorem hbReply_plain (f : Msg) (h : asciiStr ((f.get? tTestReqID).getD "0") = true) : PlainMsg (hbReply f) :=
+theorem hbReply_plain (f : Msg) (h : isLatin1 ((f.get? tTestReqID).getD "0") = true) : PlainMsg (hbReply f) :=
   ⟨by simp [hbReply, Msg.mk', mHeartbeat, mSequenceReset],
    by simp [hbReply, Msg.mk', Msg.get?, Msg.lookup, tPossDupFlag, tTestReqID],
-   by simp [asciiMsg, hbReply, Msg.mk', h]; decide⟩
+   by simp [latin1Msg, hbReply, Msg.mk', h]; decide⟩
 
 theorem recv_testreq_est {sr : Msg → Bool} {env : Env} {c : Conn} {f : Msg} {v : String} (h : Est c)
-    (ha : Addressed c f v c.sess.nextIn) (hty : f.mtype = mTestRequest) (henv : asciiStr env.stamp = true)
-    (hid : asciiStr ((f.get? tTestReqID).getD "0") = true) :
+    (ha : Addressed c f v c.sess.nextIn) (hty : f.mtype = mTestRequest) (henv : isLatin1 env.stamp = true)
+    (hid : isLatin1 ((f.get? tTestReqID).getD "0") = true) :
     recv sr env c f =
       (afterIn (afterSend c env (hbReply f)) env f, [.write (sentFrame c env (hbReply f))]) := by
   have hp := hbReply_plain f hid
   have hj1 := jOut_spec env (hbReply f) h.fresh
   have hj2 := jIn_spec f (jfresh_afterSend env (hbReply f) h.fresh)
   have := recv_testreq (sr := sr) ha h.st hty
-    (frameLatin1_of_isAscii (sentFrame_ascii h.asciiS h.asciiT henv hp.ascii)) hj1 h.sock h.posIn hj2
+    ((sentFrame_latin1 h.latinS h.latinT henv hp.latin1)) hj1 h.sock h.posIn hj2
   rw [this]
   rfl
 
